@@ -842,7 +842,9 @@ impl Bmi2BzhiOps {
                 #[cfg(target_arch = "x86_64")]
                 {
                     let caps = Bmi2Capabilities::get();
-                    if caps.has_bmi2 {
+                    // BZHI only looks at the low 8 bits of the index: larger boundaries go
+                    // to the fallback below, which keeps the whole word
+                    if caps.has_bmi2 && boundary < 64 {
                         return unsafe { std::arch::x86_64::_bzhi_u64(word, boundary) };
                     }
                 }
@@ -978,7 +980,13 @@ impl Bmi2AdvancedPatterns {
     #[inline]
     unsafe fn pdep_bzhi_composite_hardware(src: u64, mask: u64, bit_limit: u32) -> u64 {
         let deposited = std::arch::x86_64::_pdep_u64(src, mask);
-        std::arch::x86_64::_bzhi_u64(deposited, bit_limit)
+        // BZHI only looks at the low 8 bits of the index; a limit of 64 or more keeps
+        // everything, as in the software path
+        if bit_limit >= 64 {
+            deposited
+        } else {
+            std::arch::x86_64::_bzhi_u64(deposited, bit_limit)
+        }
     }
     
     /// Bulk PDEP + CTZ select operations
